@@ -38,7 +38,9 @@ func (b Bundle) Fragment(mtu int) (bs []Bundle, err error) {
 		return
 	}
 
-	for i := 0; i < payloadBlockLen; {
+	// An empty payload still results in one (empty) fragment, so that the overhead is checked against the MTU and
+	// the bundle itself is returned below instead of an empty slice.
+	for i := 0; i == 0 || i < payloadBlockLen; {
 		var (
 			fragPrimaryBlock PrimaryBlock
 			primaryOverhead  int
